@@ -41,6 +41,8 @@ type realPop struct {
 	Comments []commentRef
 	Shape    string
 	cache    *cache.RepoCache
+	dir      string
+	stage    string // before-edits, after-edit-N, after-all-edits, reopened
 }
 
 func commonPrefix(a, b string) int {
@@ -175,6 +177,7 @@ func buildReal(dir string, seed uint64, k int) (*realPop, error) {
 		{bd0, author, func(free string) string { return free[:3] }}, // same secondary, unrelated primary
 	}
 	free := ""
+	created := map[*bug.Bug][]string{} // ids of the operations that created the later comments of a bug
 	for n, st := range plan {
 		op, err := mineComment(st.who, st.want(free))
 		if err != nil {
@@ -184,6 +187,7 @@ func buildReal(dir string, seed uint64, k int) (*realPop, error) {
 			free = string(op.Id())
 		}
 		st.b.Append(op)
+		created[st.b] = append(created[st.b], string(op.Id()))
 	}
 	// inside ONE bug: a free comment and three more whose operation ids share exactly 1, 2 and 3
 	// leading characters with it (prefixes that cover the bug and 1..3 comment characters are
@@ -193,6 +197,7 @@ func buildReal(dir string, seed uint64, k int) (*realPop, error) {
 		return nil, err
 	}
 	bd1.Append(inner)
+	created[bd1] = append(created[bd1], string(inner.Id()))
 	innerId := string(inner.Id())
 	for share := 1; share <= 3; share++ {
 		for {
@@ -202,6 +207,7 @@ func buildReal(dir string, seed uint64, k int) (*realPop, error) {
 			}
 			if commonPrefix(string(op.Id()), innerId) == share {
 				bd1.Append(op)
+				created[bd1] = append(created[bd1], string(op.Id()))
 				break
 			}
 		}
@@ -211,23 +217,19 @@ func buildReal(dir string, seed uint64, k int) (*realPop, error) {
 			return nil, err
 		}
 		pop.Bugs = append(pop.Bugs, string(b.Id()))
+		// the reference population: a comment is identified by the operation that CREATED it (the
+		// create operation, whose id is the bug's id, or an add-comment operation), whatever edits follow
+		for _, opId := range append([]string{string(b.Id())}, created[b]...) {
+			pop.Comments = append(pop.Comments, commentRef{Bug: string(b.Id()), OpId: opId, Combined: string(entity.CombineIds(b.Id(), entity.Id(opId)))})
+		}
 	}
+	pop.dir = dir
 
 	c, err := cache.NewRepoCacheNoEvents(repo)
 	if err != nil {
 		return nil, err
 	}
 	pop.cache = c
-	// the population as the reference sees it: comments of the resolved snapshots
-	for _, id := range pop.Bugs {
-		bc, err := c.Bugs().Resolve(entity.Id(id))
-		if err != nil {
-			return nil, err
-		}
-		for _, cm := range bc.Snapshot().Comments {
-			pop.Comments = append(pop.Comments, commentRef{Bug: id, OpId: string(cm.TargetId()), Combined: string(cm.CombinedId())})
-		}
-	}
 	var sh []string
 	for i := range pop.Bugs {
 		for j := i + 1; j < len(pop.Bugs); j++ {
@@ -367,8 +369,16 @@ func judgeComment(exp []commentRef, bugId, commentId string, err error, panicked
 }
 
 func (p *realPop) check(col *collector, onlyApi, onlyPrefix string, out map[string]int) (inputs, calls int) {
+	return p.checkAt(col, onlyApi, onlyPrefix, "", out)
+}
+
+// checkAt: onlyBug != "" restricts the run to ResolveComment on the prefixes of that bug's comments.
+func (p *realPop) checkAt(col *collector, onlyApi, onlyPrefix, onlyBug string, out map[string]int) (inputs, calls int) {
 	rp := func(api, prefix string) map[string]any {
-		return map[string]any{"part": "c", "seed": p.Seed, "population": p.K, "api": api, "prefix": prefix}
+		return map[string]any{"part": "c", "seed": p.Seed, "population": p.K, "api": api, "prefix": prefix, "stage": p.stage}
+	}
+	if onlyBug != "" {
+		onlyApi = "bug.ResolveComment"
 	}
 	// entity prefixes
 	for _, grp := range []struct {
@@ -402,8 +412,15 @@ func (p *realPop) check(col *collector, onlyApi, onlyPrefix string, out map[stri
 	}
 	// comments
 	if onlyApi == "" || onlyApi == "bug.ResolveComment" {
-		for _, pre := range p.commentPrefixes() {
-			if onlyApi != "" && pre != onlyPrefix {
+		prefixes := p.commentPrefixes()
+		if onlyBug != "" {
+			prefixes = p.commentPrefixesOf(onlyBug)
+		}
+		for _, pre := range prefixes {
+			if onlyApi != "" && onlyBug == "" && pre != onlyPrefix {
+				continue
+			}
+			if onlyBug != "" && onlyPrefix != "" && pre != onlyPrefix {
 				continue
 			}
 			inputs++
@@ -416,7 +433,7 @@ func (p *realPop) check(col *collector, onlyApi, onlyPrefix string, out map[stri
 			b, cid, err, pan := resolveComment(p.cache, pre)
 			calls++
 			if sig, detail := judgeComment(exp, b, cid, err, pan); sig != "" {
-				col.add(finding{"comment-resolution", sig, fmt.Sprintf("real population %d, ResolveComment(%q): %s", p.K, pre, detail), rp("bug.ResolveComment", pre)})
+				col.add(finding{"comment-resolution", sig, fmt.Sprintf("real population %d, %s, ResolveComment(%q): %s", p.K, p.stage, pre, detail), rp("bug.ResolveComment", pre)})
 				out["VIOLATION "+sig]++
 			} else {
 				verdict := "error"
@@ -430,6 +447,114 @@ func (p *realPop) check(col *collector, onlyApi, onlyPrefix string, out map[stri
 	return
 }
 
+// commentPrefixesOf: every prefix length 0..64 (and one-character perturbations) of the TRUE combined
+// ids of one bug's comments.
+func (p *realPop) commentPrefixesOf(bugId string) []string {
+	set := map[string]bool{}
+	for _, c := range p.Comments {
+		if c.Bug != bugId {
+			continue
+		}
+		for l := 0; l <= len(c.Combined); l++ {
+			set[c.Combined[:l]] = true
+			if l > 0 {
+				set[c.Combined[:l-1]+string(nextHex(c.Combined[l-1]))] = true
+			}
+		}
+	}
+	return sortedByLen(set)
+}
+
+// commentEdit: comment number Comment (0 = the create comment) of bug number Bug is edited by
+// identity number By (0 author, 1 and 2 the others) through the cache, addressed by its TRUE
+// combined id.
+type commentEdit struct{ Bug, Comment, By int }
+
+// editPlan: the create comment and a later comment, edited once and twice, by the comment's author
+// and by others.
+var editPlan = []commentEdit{{0, 0, 1}, {1, 1, 0}, {1, 1, 2}, {4, 0, 0}, {4, 0, 1}, {4, 1, 2}, {5, 1, 0}}
+
+func (p *realPop) commentsOf(bugId string) []commentRef {
+	var out []commentRef
+	for _, c := range p.Comments {
+		if c.Bug == bugId {
+			out = append(out, c)
+		}
+	}
+	return out
+}
+
+// applyEdit performs one edit through the real cache. refused is set when the cache does not find
+// the comment under its true combined id (a resolution failure, reported as a violation).
+func (p *realPop) applyEdit(n int, e commentEdit) (refused string, err error) {
+	vctl.SetActor("c13")
+	bugId := p.Bugs[e.Bug]
+	target := p.commentsOf(bugId)[e.Comment]
+	bc, err := p.cache.Bugs().Resolve(entity.Id(bugId))
+	if err != nil {
+		return "", err
+	}
+	who, err := p.cache.Identities().Resolve(entity.Id(p.Idents[e.By]))
+	if err != nil {
+		return "", err
+	}
+	if _, err := bc.EditCommentRaw(who, baseUnix+int64(900000+n), entity.CombinedId(target.Combined), fmt.Sprintf("edited text %d", n), nil); err != nil {
+		return fmt.Sprintf("editing comment %s of bug %s addressed by its combined id failed: %v", short([]string{target.Combined})[0], short([]string{bugId})[0], err), nil
+	}
+	return "", bc.Commit()
+}
+
+// runStages is the whole life of one real population: static checks, then every edit of the plan
+// with the edited bug's comments re-resolved after each, everything re-resolved after the last,
+// and once more through a reopened cache. only* restrict the run (replay).
+func (p *realPop) runStages(col *collector, onlyStage, onlyApi, onlyPrefix string, out map[string]int) (inputs, calls int, err error) {
+	want := func(stage string) bool { p.stage = stage; return onlyStage == "" || onlyStage == stage }
+	add := func(i, c int) { inputs += i; calls += c }
+	if want("before-edits") {
+		add(p.checkAt(col, onlyApi, onlyPrefix, "", out))
+		if onlyApi == "" {
+			i, c, err := p.checkSelect(col, nil, nil, false, out)
+			if err != nil {
+				return inputs, calls, err
+			}
+			add(i, c)
+		}
+	}
+	for n, e := range editPlan {
+		refused, err := p.applyEdit(n+1, e)
+		if err != nil {
+			return inputs, calls, fmt.Errorf("edit %d: %w", n+1, err)
+		}
+		if want(fmt.Sprintf("after-edit-%d", n+1)) {
+			if refused != "" {
+				col.add(finding{"comment-resolution", "edit-by-true-combined-id-refused", fmt.Sprintf("real population %d, %s: %s", p.K, p.stage, refused),
+					map[string]any{"part": "c", "seed": p.Seed, "population": p.K, "api": "bug.ResolveComment", "prefix": "", "stage": p.stage}})
+				out["VIOLATION edit refused"]++
+			}
+			if onlyApi == "" || onlyApi == "bug.ResolveComment" {
+				add(p.checkAt(col, "", onlyPrefix, p.Bugs[e.Bug], out))
+			}
+		}
+	}
+	if want("after-all-edits") && (onlyApi == "" || onlyApi == "bug.ResolveComment") {
+		add(p.checkAt(col, "bug.ResolveComment", onlyPrefix, "", out))
+	}
+	if err := p.cache.Close(); err != nil {
+		return inputs, calls, err
+	}
+	repo, err := repository.OpenGoGitRepo(p.dir, world.Namespace, nil)
+	if err != nil {
+		return inputs, calls, err
+	}
+	if p.cache, err = cache.NewRepoCacheNoEvents(repo); err != nil {
+		return inputs, calls, err
+	}
+	if want("reopened") && (onlyApi == "" || onlyApi == "bug.ResolveComment") {
+		add(p.checkAt(col, "bug.ResolveComment", onlyPrefix, "", out))
+	}
+	return inputs, calls, nil
+}
+
 func partC(col *collector, scratch string, seed uint64, pops int) partResult {
 	r := partResult{Outcomes: map[string]int{}}
 	var shapes []string
@@ -439,10 +564,10 @@ func partC(col *collector, scratch string, seed uint64, pops int) partResult {
 			r.Err = fmt.Errorf("population %d: %w", k, err)
 			return r
 		}
-		in, calls := p.check(col, "", "", r.Outcomes)
-		r.Inputs += in
-		r.Calls += calls
-		in, calls, err = p.checkSelect(col, nil, nil, false, r.Outcomes)
+		if k == 0 {
+			r.Samples = append(r.Samples, map[string]any{"part": "c", "bugs": short(p.Bugs), "identities": short(p.Idents), "comments": p.Comments, "sample_prefixes": p.commentPrefixes()[:10], "comment_edits": editPlan})
+		}
+		in, calls, err := p.runStages(col, "", "", "", r.Outcomes)
 		if err != nil {
 			r.Err = fmt.Errorf("population %d: %w", k, err)
 			return r
@@ -450,15 +575,12 @@ func partC(col *collector, scratch string, seed uint64, pops int) partResult {
 		r.Inputs += in
 		r.Calls += calls
 		shapes = append(shapes, p.Shape)
-		if k == 0 {
-			r.Samples = append(r.Samples, map[string]any{"part": "c", "bugs": short(p.Bugs), "identities": short(p.Idents), "comments": p.Comments, "sample_prefixes": p.commentPrefixes()[:10]})
-		}
 		if err := p.cache.Close(); err != nil {
 			r.Err = err
 			return r
 		}
 	}
-	r.Extra = map[string]any{"populations": pops, "bugs_per_population": realBugsPerPop, "identities_per_population": identsPerPop, "shapes": shapes}
+	r.Extra = map[string]any{"populations": pops, "bugs_per_population": realBugsPerPop, "identities_per_population": identsPerPop, "shapes": shapes, "comment_edits_per_population": len(editPlan)}
 	return r
 }
 
@@ -467,12 +589,16 @@ func replayC(col *collector, scratch string, m map[string]any) error {
 	if err != nil {
 		return err
 	}
-	defer p.cache.Close()
+	defer func() { p.cache.Close() }()
 	if str(m, "api") == "select.Resolve" {
 		sel := num(m, "selection")
 		_, _, err := p.checkSelect(col, &sel, strs(m, "args"), true, map[string]int{})
 		return err
 	}
-	p.check(col, str(m, "api"), str(m, "prefix"), map[string]int{})
-	return nil
+	stage := str(m, "stage")
+	if stage == "" {
+		stage = "before-edits"
+	}
+	_, _, err = p.runStages(col, stage, str(m, "api"), str(m, "prefix"), map[string]int{})
+	return err
 }
